@@ -74,9 +74,12 @@ Kind(fact) == fact[1]
 Carried(fmt, fact) ==
   CASE fmt \in {"xsd"} -> Kind(fact) \in {"T", "F", "A"}
     [] fmt \in {"spanner", "postgres", "mysql"} -> Kind(fact) \in {"T", "F", "K"}
+    \* beyond the listed properties: records / messages with their fields, and enumeration members
+    [] fmt \in {"avro", "proto"} -> Kind(fact) \in {"T", "F", "V"}
     [] OTHER -> Kind(fact) # "K"
 \* enumeration members are demanded only of an exported document read directly (importers keep them as annotations at best)
-Expected(fmt, doc) == {f \in Facts(doc) : Carried(fmt, f) /\ Kind(f) # "V"}
+\* (the Avro and Protocol Buffers importers write enumerations with their members)
+Expected(fmt, doc) == {f \in Facts(doc) : Carried(fmt, f) /\ (Kind(f) # "V" \/ fmt \in {"avro", "proto"})}
 ExpectedRead(fmt, doc) == {f \in Facts(doc) : Carried(fmt, f)}
 
 \* the part of a document a format can express: what is rendered in that format, and what is expected of it
@@ -93,6 +96,17 @@ SqlDoc(doc) ==
                     LAMBDA t : [t EXCEPT !.fields = MapSeq(SelectSeq(t.fields, LAMBDA f : SqlField(doc, f)),
                                                            LAMBDA f : [f EXCEPT !.arr = FALSE])]),
    eps |-> <<>>]
+\* Avro: named records and enumerations; a field is a primitive or refers to one of those; no inline objects, no extension
+RecKeeps(doc, prims, f) == f.base \in prims \/ \E t \in Range(doc.types) : t.kind \in {"object", "enum"} /\ f.base = "ref:" \o t.name
+RecDoc(doc, prims, arrReq) ==
+  [types |-> MapSeq(SelectSeq(doc.types, LAMBDA t : t.kind \in {"object", "enum"}),
+                    LAMBDA t : [t EXCEPT !.base = IF t.kind = "object" THEN "" ELSE t.base,
+                                         !.fields = MapSeq(SelectSeq(t.fields, LAMBDA f : RecKeeps(doc, prims, f)),
+                                                           LAMBDA f : [f EXCEPT !.req = IF arrReq /\ f.arr THEN TRUE ELSE f.req])]),
+   eps |-> <<>>]
+AvroDoc(doc) == RecDoc(doc, Prims, FALSE)
+\* Protocol Buffers (proto3): no date kinds, a repeated field cannot be optional
+ProtoDoc(doc) == RecDoc(doc, {"string", "int", "float", "bool"}, TRUE)
 \* the exportable subset: no inline objects (Sysl has no anonymous field types), scalar query and header parameters,
 \* and at least one operation (an OpenAPI document must have a paths object)
 Ping == [method |-> "GET", path |-> "/ping", pparams |-> <<>>, params |-> <<>>, body |-> [base |-> "", arr |-> FALSE, req |-> FALSE],
